@@ -428,6 +428,7 @@ func buildOverlay(pkgDir string) (*OverlayResult, error) {
 				ins = append(ins, insertion{off(at.End()), fmt.Sprintf("; "+marker+"(%s, func() bool { return %s });", quoteLabel(a.Label), specToGo(a.Text, resultName))})
 			}
 			loops := collectLoops(fd.Body)
+			res.Problems = append(res.Problems, resolveNamedLoops(c, loops, src, off)...)
 			if len(c.LoopInv) > 0 || len(c.LoopDec) > 0 {
 				for n, l := range loops {
 					_, isFor := l.(*ast.ForStmt)
@@ -654,3 +655,47 @@ var ghostRe = regexp.MustCompile(`\bghost\((\w+)\)`)
 
 // rewriteGhost turns ghost(name) into ghost("name") so that it is a Go call.
 func rewriteGhost(s string) string { return ghostRe.ReplaceAllString(s, `ghost("$1")`) }
+
+// resolveNamedLoops attaches the loop contracts addressed by a header fragment
+// to the ordinal of the first loop whose header contains the fragment.
+func resolveNamedLoops(c *Contract, loops []ast.Stmt, src []byte, off func(token.Pos) int) []string {
+	var problems []string
+	for _, nl := range c.NamedLoops {
+		if nl.done {
+			continue
+		}
+		nl.done = true
+		found := 0
+		frag, want := nl.Frag, 1
+		if h := strings.LastIndex(frag, "#"); h >= 0 {
+			if k, err := strconv.Atoi(frag[h+1:]); err == nil && k >= 1 {
+				frag, want = frag[:h], k
+			}
+		}
+		for n, l := range loops {
+			hdr := string(src[off(l.Pos()):off(loopBody(l).Lbrace)])
+			if strings.Contains(hdr, frag) {
+				want--
+				if want == 0 {
+					found = n + 1
+					break
+				}
+			}
+		}
+		if found == 0 {
+			problems = append(problems, fmt.Sprintf("contract-target-missing: no loop of %s has a header containing %q", c.Key, nl.Frag))
+			continue
+		}
+		lc := c.Loops[found]
+		if lc == nil {
+			c.Loops[found] = nl.LC
+			continue
+		}
+		lc.Invariants = append(lc.Invariants, nl.LC.Invariants...)
+		lc.Progress = append(lc.Progress, nl.LC.Progress...)
+		if len(lc.Decreases) == 0 {
+			lc.Decreases = nl.LC.Decreases
+		}
+	}
+	return problems
+}
